@@ -31,6 +31,9 @@ CHECKS = {
  "C07": ("exploration", "6 C07",
          "Seeded histories (with killed and resumed backups, zero-length leftovers, deletes, gc) checked step by step against the operation log and a byte-for-byte before/after store image, and two backups of different sources racing as two simulated processes under systematic single-preemption and seeded random schedules; one third of the runs execute the real transport/local.rs on tmpfs behind the interceptor.",
          "deterministic simulation (histories with crash injection; two racing processes under a controlled scheduler) with an operation-log oracle, on both the stub store and the real local transport"),
+ "C08": ("exploration", "6 C08",
+         "Archive states from real simulated histories with many killed backups and from state injection (bands written directly in format 0.6: complete/incomplete/head-less/hunk-less/absent, every hunk split, missing trailing hunks); every (band, subtree, exclusion) listing is compared with reference-stitch o ancestor-filter o exclusion over the independent decoder, checked for strict order and for termination within the operation budget.",
+         "deterministic simulation (crash-injected histories + seeded state injection) with an executable reference model of the stitching rule"),
  "C09": ("fault_enumeration", "6 C09",
          "Healthy side: fault-free simulated histories (incl. interrupted-with-header backups, deletes, gc) validated after every step. Damage side: for the final store EVERY file except tails x {delete, truncate 0, truncate half, garbage} + seeded bit flips in blocks; every version is restored before and after, and only damage that changes a restore obliges validate to report.",
          "deterministic simulation with exhaustive single-file storage-rot injection per scenario; differential restore oracle decides when validate must speak"),
@@ -40,10 +43,30 @@ CHECKS = {
  "C14": ("fault_enumeration", "6 C14",
          "Operation-log oracles in simulation: an unchanged tree backed up again writes no block and records identical addresses; over histories no block path is written while it holds content; and for EVERY crash point of a backup the resumed backup rewrites nothing and reuses the interrupted run's recorded entries.",
          "deterministic simulation with exhaustive crash-point injection per scenario + operation-log oracle"),
+ "C11": ("exploration", "6 C11",
+         "Stream half as a simulation invariant: Conserve's source walk under the real readdir order, every decoded hunk sequence and every listing (under shuffled storage listings and delays) strictly increasing under the reference order and equal to the tree; comparator half sampled over the simulated worlds' path populations (pairs, triples, validity of request strings). The exhaustive depth<=4 enumeration named in the quantifier is deliberately not built (pure function: not a simulation target).",
+         "deterministic simulation (zero-fault configuration, environment order nondeterminism controlled) + reference order; comparator laws sampled, not enumerated"),
+ "C12": ("exploration", "6 C12",
+         "Trees biased to multi-byte names and extension siblings, one or two versions (some stitched after a killed backup); every subtree listing is compared with the reference ancestor filter of the full listing and every directory's subtree restore with the corresponding sub-map of the full restore.",
+         "deterministic simulation (seeded workload, crash-injected second version) + refinement against a reference ancestor test"),
  "C13": ("exploration", "6 C13",
          "Same seeded histories (plus the crash variant that leaves a zero-length file), decoded after every step by an independent reader of format 0.6 and checked against doc/format.md.",
          "deterministic simulation of histories with crash injection + independent format decoder as oracle"),
 }
+CHECKS.update({
+ "C15": ("exploration", "6 C15",
+         "Differential check in simulation: entries stored by backup(exclude=E) (independent decoder) = listing of a full backup with E = paths restored from the full backup with E = a reference glob rule, over generated trees and pattern sets drawn from the tree's own names.",
+         "deterministic simulation (seeded workload, zero-fault configuration) + differential and reference-rule oracle"),
+ "C16": ("exploration", "6 C16",
+         "Sandboxed restores in simulation: trees whose symlinks aim at sentinel files/directories beside the destination (relative, absolute, '..'), restored with drawn subtree/exclusion selections into absent, empty and pre-populated destinations; a recursive lstat+content snapshot of everything outside the destination must not change, and a non-empty destination must be refused untouched.",
+         "deterministic simulation (seeded workload) + sandbox snapshot oracle around the real restore target"),
+ "C17": ("exploration", "6 C17",
+         "Each seeded history (with killed backups, deletes, gc) is executed three times into fresh simulated stores under controlled environment flavours (sorted / shuffled / reversed listings, no delays / two delay seeds that reorder sibling-task completion); stores must be byte-identical modulo the two timestamps and the mutating operation sequences equal.",
+         "deterministic simulation replayed under varied simulator-controlled schedules/listing orders; byte-level differential oracle"),
+ "C18": ("exploration", "6 C18",
+         "Tree, backup, generated mutation set, then diff (with and without unchanged) and the next backup's change callback are compared path by path with a model diff of the harness's two snapshots; the untouched tree must report no change.",
+         "deterministic simulation (seeded workload, zero-fault configuration) + reference-model diff"),
+})
 
 checks = []
 for cid, (level, ref, text, technique) in sorted(CHECKS.items()):
